@@ -62,7 +62,7 @@ inductive Val
   | rv (v : Val)                          -- a reflect.Value (what `slice + x` yields)
   | gofn (name : String)                  -- a Go function of the closed helper family
   | userfn (params : List Ident) (body : Block)
-  | iter (pos end_ : Int)                 -- *ranger
+  | iter (pos end_ : Int) (done : Bool)   -- *ranger
   | ret (vs : List Val) | cont (vs : List Val) | brk (vs : List Val)
   | ilist (vs : List Val)                 -- an immutable []interface{} built by the evaluator (block / loop results)
   | closure (block : Option Block) (ctx : Nat)   -- the func stored by contentFor (captures the helper context)
